@@ -276,9 +276,12 @@ class H2Protocol:
                 if self.keep_alive_requests > self.config.keep_alive_max_requests:
                     self.connection.close_connection()
             elif isinstance(event, h2.events.DataReceived):
-                await self.streams[event.stream_id].handle(
-                    Body(stream_id=event.stream_id, data=event.data)
-                )
+                if event.stream_id in self.streams:
+                    # Otherwise the response has been sent before the full
+                    # request was received, nothing to do already closed.
+                    await self.streams[event.stream_id].handle(
+                        Body(stream_id=event.stream_id, data=event.data)
+                    )
                 self.connection.acknowledge_received_data(
                     event.flow_controlled_length, event.stream_id
                 )
